@@ -47,9 +47,11 @@ void World::hostile_finish(const std::string& op)
 {
     if (!db || stop)
         return;
-    // stale handles: id() unchanged, is_valid() false, copy / assign / destroy are safe
+    // stale handles: id() unchanged, is_valid() false, copy / assign / destroy are safe.
+    // Which handles are stale is known from the model, so the verdict stops with it.
+    const bool judge = !model_off;
     for (auto& sl : tracks)
-        if (sl.h && !sl.live)
+        if (judge && sl.h && !sl.live)
         {
             Outcome o = call(FaultSpec{}, [&] {
                 dj::track copy = *sl.h;
@@ -67,7 +69,7 @@ void World::hostile_finish(const std::string& op)
             probes.hit("stale_track_handle_checked");
         }
     for (auto& sl : crates)
-        if (sl.h && !sl.live)
+        if (judge && sl.h && !sl.live)
         {
             Outcome o = call(FaultSpec{}, [&] {
                 dj::crate copy = *sl.h;
@@ -84,7 +86,21 @@ void World::hostile_finish(const std::string& op)
                        "copy / assign / id() / is_valid() on a stale crate handle threw " + o.exc);
             probes.hit("stale_crate_handle_checked");
         }
+    bool purity = check(CK_PURITY);
+    if (purity)
+        check_purity_begin();
     FullObs cur = observe();
+    if (purity)
+    {
+        // C16 in the states only a hostile caller reaches (members without a track row, stale handles, ...)
+        check_purity_end("observe");
+        g_sim_clock += 977;
+        FullObs again = observe();
+        check_purity_end("observe2");
+        if (cur.serialize() != again.serialize())
+            report("C16", "C16|observe|" + fam() + "|answers-differ", "two consecutive observations differ after " + op);
+        probes.hit("purity_checked");
+    }
     if (check(CK_MODEL))
         check_model(cur);
     prev = cur;
@@ -238,16 +254,24 @@ bool World::exec_hostile_op(const Step& s)
             id = *model.dead_tracks.begin();
         bool track_exists = model.tracks.count(id) > 0;
         note("h_lookup id " + std::to_string(id));
+        // (what a lookup of a never-issued id returns is not fixed by any listed property: on
+        // 1.17.0+ the id-reservation placeholder row makes track_by_id(max+1) return a handle)
         tally(*this, "track_by_id", call(FaultSpec{}, [&] {
                   auto t = db->track_by_id(id);
-                  if (t && !track_exists)
-                      report("C15", "C15|track_by_id|" + fam() + "|nonexistent-found", "track_by_id returned a handle for an id that never existed or was removed");
+                  if (t)
+                  {
+                      (void)t->is_valid();
+                      probes.hit(track_exists ? "lookup_found_live" : "lookup_found_unissued_id");
+                  }
               }));
         bool crate_exists = model.crates.count(id) > 0;
         tally(*this, "crate_by_id", call(FaultSpec{}, [&] {
                   auto c = db->crate_by_id(id);
-                  if (c && !crate_exists)
-                      report("C15", "C15|crate_by_id|" + fam() + "|nonexistent-found", "crate_by_id returned a handle for an id that never existed or was removed");
+                  if (c)
+                  {
+                      (void)c->is_valid();
+                      probes.hit(crate_exists ? "lookup_found_live" : "lookup_found_unissued_id");
+                  }
               }));
         int ci = pick_live_crate(arg(2));
         if (ci >= 0 && !track_exists)
